@@ -30,6 +30,8 @@ func C17(r *core.Run) {
 	provNoReorder(r)
 	provEnumNumbers(r)
 	entityPathKeys(r, info)
+	// the key markers (primary, foreign, tenant) are independent: each is emitted whatever the others are
+	attributeIndependence(r, "sym_sites", "*")
 }
 
 // entityMustCall: run() calls every accept* method, each behind an error return.
